@@ -22,6 +22,9 @@ vars_noL == << cfg, st, ws, ended, cbs, win, closeRet, closeOK, connCloses, last
 
 Mode == IOEnv.VERIF_MODE
 On(m) == Mode = m
+\* pendGarbage is the "after drift" flag (name kept from an earlier draft)
+InOrder == ~pendGarbage
+OnO(m) == Mode = m /\ InOrder
 
 Fresh ==
   /\ st' = << >>            \* s -> [id, raw, ret, calls, afterClose, t0]
@@ -72,7 +75,7 @@ Step(n, e) ==
          /\ UNCHANGED << cfg, ws, ended, cbs, win, closeRet, closeOK, connCloses, lastDel, exited, lastNow, pendGarbage, cbSeen, k4, k2, pend, closing >>
     [] e.k = "start_ret" ->
          LET s == st[e.s] IN
-         /\ On("C10") => Require(~(e.err # "nil" /\ s.calls > 0), n, "handler-after-start-error",
+         /\ OnO("C10") => Require(~(e.err # "nil" /\ s.calls > 0), n, "handler-after-start-error",
                                  [s |-> e.s, err |-> e.err, order |-> "handler-before-return", k4 |-> st[e.s].id \in k4])
          /\ On("C15") => Require(s.afterClose => e.err = "closed", n, "start-after-close-not-refused", [s |-> e.s, err |-> e.err])
          /\ On("C10") => Require((Has(e, "do") /\ e.do /\ e.err = "nil") => s.calls = 1, n, "do-returned-before-its-handler-ran",
@@ -110,9 +113,9 @@ Step(n, e) ==
               /\ Require(e.raw = Trace[st[s].line].raw, n, "transmission-differs-from-message-at-start",
                          [id |-> i, transmission |-> k, got_len |-> Len(e.raw), want_len |-> Len(Trace[st[s].line].raw)])
               /\ Require(Len(prior) + 1 <= N + 1, n, "too-many-transmissions", [id |-> i, count |-> Len(prior) + 1, limit |-> N + 1])
-              /\ Require(k = 0 \/ reg > prevreg + k * Rto, n, "retransmitted-before-deadline",
+              /\ Require(~InOrder \/ k = 0 \/ reg > prevreg + k * Rto, n, "retransmitted-before-deadline",
                          [id |-> i, transmission |-> k, at |-> reg, previous |-> prevreg, via |-> Via(e.p), k4 |-> i \in k4])
-              /\ Require(~(i \in ended /\ k >= 1), n, "write-after-end",
+              /\ Require(~InOrder \/ ~(i \in ended /\ k >= 1), n, "write-after-end",
                          [id |-> i, transmission |-> k, via |-> Via(e.p), k4 |-> i \in k4,
                           window_opened_before_end |-> (e.p \in DOMAIN win /\ ~win[e.p].endedBefore)])
          /\ (On("C15") /\ s # 0) => Require(~st[s].afterClose, n, "write-by-start-after-close", [id |-> i])
@@ -130,29 +133,29 @@ Step(n, e) ==
          IN
          /\ On("C10") =>
               /\ Require(s.calls = 0, n, "handler-invoked-twice", [s |-> e.s, kind |-> e.kind])
-              /\ Require(s.ret \in {"none", "nil"}, n, "handler-after-start-error",
+              /\ Require(~InOrder \/ s.ret \in {"none", "nil"}, n, "handler-after-start-error",
                          [s |-> e.s, err |-> s.ret, kind |-> e.kind, order |-> "handler-after-return", k4 |-> i \in k4])
               /\ Require(e.kind \in {"msg", "timeout", "writeerr", "closed"}, n, "unexpected-completion-kind", [s |-> e.s, kind |-> e.kind, k4 |-> i \in k4])
-         /\ (On("C11") /\ e.kind = "timeout") =>
+         /\ (OnO("C11") /\ e.kind = "timeout") =>
                  \* all N retransmissions were made and the clock passed the deadline of the last one
                  Require(Len(SelectSeq(Get(ws, i, <<>>), LAMBDA w : w.retx)) = N /\ e.t > lastreg + (N + 1) * Rto, n, "timeout-before-last-deadline",
                          [s |-> e.s, transmissions |-> Len(Get(ws, i, <<>>)), limit |-> N + 1, at |-> e.t, last |-> lastreg, k4 |-> i \in k4])
          /\ On("C12") =>
               /\ Require(e.id = i, n, "event-for-another-transaction", [s |-> e.s, handler_id |-> i, event_id |-> e.id])
               /\ ((e.kind = "msg") => Require(\E d \in Get(lastDel, e.id, {}) : Trace[d].raw = e.msg, n, "message-is-not-the-received-datagram", [s |-> e.s]))
-         /\ On("C15") => Require(~closeRet, n, "handler-after-close", [s |-> e.s, kind |-> e.kind, p |-> e.p, k4 |-> i \in k4])
+         /\ OnO("C15") => Require(~closeRet, n, "handler-after-close", [s |-> e.s, kind |-> e.kind, p |-> e.p, k4 |-> i \in k4])
          /\ st' = Set(st, e.s, [s EXCEPT !.calls = @ + 1])
          /\ ended' = ended \cup {i}
          /\ pend' = IF e.kind = "msg" /\ pend # << >> /\ Trace[pend.line].raw = e.msg THEN << >> ELSE pend
          /\ UNCHANGED << cfg, ws, cbs, win, closeRet, closeOK, connCloses, lastDel, exited, lastNow, pendGarbage, cbSeen, k4, k2, closing >>
     [] e.k = "fallback" ->
          /\ On("C12") =>
-              /\ ((e.kind = "msg") => Require(~InFlight(e.id), n, "response-to-fallback-while-in-flight",
+              /\ ((e.kind = "msg" /\ InOrder) => Require(~InFlight(e.id), n, "response-to-fallback-while-in-flight",
                                              [id |-> e.id, in_retransmission_window |-> InTimeoutCallback(e.id), k4 |-> e.id \in k4]))
               \* (timeout / closed events of a transaction that reach the fallback handler are not messages: the
               \*  property is silent about them)
               /\ ((e.kind = "msg") => Require(\E d \in Get(lastDel, e.id, {}) : Trace[d].raw = e.msg, n, "message-is-not-the-received-datagram", [id |-> e.id]))
-         /\ On("C15") => Require(~closeRet, n, "handler-after-close", [kind |-> e.kind, p |-> e.p])
+         /\ OnO("C15") => Require(~closeRet, n, "handler-after-close", [kind |-> e.kind, p |-> e.p])
          /\ pend' = IF e.kind = "msg" /\ pend # << >> /\ Trace[pend.line].raw = e.msg THEN << >> ELSE pend   \* (misdelivery is the business of the requirement above)
          /\ UNCHANGED << cfg, st, ws, ended, cbs, win, closeRet, closeOK, connCloses, lastDel, exited, lastNow, pendGarbage, cbSeen, k4, k2, closing >>
     [] e.k = "read_ret" ->
@@ -167,8 +170,10 @@ Step(n, e) ==
             /\ UNCHANGED << cfg, st, ws, ended, cbs, win, closeRet, closeOK, connCloses, lastDel, exited, lastNow, pendGarbage, cbSeen, k4, k2, closing >>
     [] e.k = "read" ->
          \* the reader asks for the next datagram: the previous one has been dealt with
-         /\ (On("C12") /\ pend # << >> /\ ~closing) =>
-               Require(pend.expect = "none", n, "received-message-not-delivered",
+         \* (a transaction that ended meanwhile explains a message that went elsewhere; after a drift the
+         \*  goroutines run concurrently and this bookkeeping is not evaluated)
+         /\ (OnO("C12") /\ pend # << >> /\ ~closing /\ ~closeRet) =>
+               Require(pend.expect = "none" \/ (pend.expect = "handler" /\ pend.id \in ended), n, "received-message-not-delivered",
                        [id |-> pend.id, size |-> Len(Trace[pend.line].raw), expected |-> pend.expect])
          /\ pend' = << >>
          /\ UNCHANGED << cfg, st, ws, ended, cbs, win, closeRet, closeOK, connCloses, lastDel, exited, lastNow, pendGarbage, cbSeen, k4, k2, closing >>
@@ -208,8 +213,11 @@ Step(n, e) ==
                                                [s |-> s, calls |-> st[s].calls, closed |-> closeRet]))
          /\ UNCHANGED vars_noL
     [] e.k = "drift" ->
+         \* the behaviour could not be followed: from here on the goroutines run concurrently and only the
+         \* requirements that do not depend on the exact order of concurrent events stay armed (InOrder)
          /\ Drift(n, e.why, [p |-> e.p, from |-> e.from, want |-> e.want, got |-> e.got])
-         /\ UNCHANGED vars_noL
+         /\ pendGarbage' = TRUE
+         /\ UNCHANGED << cfg, st, ws, ended, cbs, win, closeRet, closeOK, connCloses, lastDel, exited, lastNow, cbSeen, k4, k2, pend, closing >>
     [] e.k = "race" -> Reject(n, "data-race", e.report) /\ UNCHANGED vars_noL
     [] e.k = "stuck" -> Reject(n, "stuck-goroutines", e.report) /\ UNCHANGED vars_noL
     [] OTHER -> UNCHANGED vars_noL      \* tick, close_call: no requirement attached
